@@ -455,7 +455,7 @@ theorem padStruct_plain {t : Tracker} {force : Bool} {e : Nat} (h : Inv t force 
 /-! ### the plain-struct theorem -/
 
 theorem hasBitfields_plain (cur : Nat) (fs : List CField) (h : plainFieldsFrom cur fs = true) :
-    (fs.any fun f => match f with | .unit _ _ _ => true | _ => false) = false := by
+    (fs.any fun f => match f with | .unit _ _ _ _ => true | _ => false) = false := by
   induction fs generalizing cur with
   | nil => rfl
   | cons f fs ih =>
